@@ -35,7 +35,7 @@ def setup(ctx):
         "{no list, empty list, list with / without the client's fingerprint}, as objects and via TOML; spellings of "
         "every file and directory: canonical, '//', missing trailing slash, '/./', '/x/../', '/public/../secret', "
         "percent-encoded segments and slashes, query strings, ';x'; clients: none / EC / RSA / Ed25519 certificates "
-        "(listed or not). distinct = (rule shape, via, spelling class, client class, status, verdict)."
+        "(listed or not), a look-alike certificate sharing issuer and serial with a listed one (after the listed one was seen), and a client that appends a listed certificate to the chain behind its own unlisted leaf. distinct = (rule shape, via, spelling class, client class, status, verdict)."
     )
     ctx.assumptions = [
         "rule prefixes are directory-level (with or without trailing slash); capsules contain no symlinks",
@@ -244,7 +244,11 @@ def run(ctx):
     idA = certs.identity("c05-A", "ec")
     idB = certs.identity("c05-B", "rsa")
     idC = certs.identity("c05-C", "ed25519")
-    clients = [("none", None), ("A-ec-listed", idA), ("B-rsa", idB), ("C-ed25519-unlisted", idC)]
+    # M: different key, but the same issuer name and serial number as the listed certificate A
+    idM = certs.identity("c05-M-lookalike", "ec", cn="localhost", serial=certs.serial_of(idA.der))
+    # X: proves possession of its own (unlisted) key but appends the listed certificate A to the chain it sends
+    idX = certs.identity("c05-X-chained", "ec", extra_chain=[idA.der])
+    clients = [("none", None), ("A-ec-listed", idA), ("M-same-issuer-serial-as-A", idM), ("B-rsa", idB), ("C-ed25519-unlisted", idC), ("X-unlisted-leaf+A-appended", idX)]
     base = tempfile.mkdtemp(prefix="vf-c05-")
     try:
         meta = build_capsule(rng, base)
@@ -262,7 +266,7 @@ def run(ctx):
                     cap, sc, cac = capture(ctx, meta, rules, via, base, listing)
                     todo = sp if not ctx.quick() else rng.sample(sp, min(len(sp), 150))
                     for path, cls, target in todo:
-                        for cname, ident in (clients if not ctx.quick() else [clients[0], rng.choice(clients[1:])]):
+                        for cname, ident in (clients if not ctx.quick() else [clients[0], clients[1], rng.choice(clients[2:])]):
                             loop = new_loop()
                             try:
                                 bench = tlsbench.Sandwich(loop, None, captured=cap, client_identity=ident)
